@@ -163,9 +163,10 @@ Next == ReadCmd \/ ActiveOff \/ EngineHalt \/ Change \/ HaltDone \/ Analyze \/ A
                         \/ FwdRecv(k) \/ FwdLine(k) \/ FwdCas(k) \/ FwdSend(k))
         \/ Idle
 Spec == Init /\ [][Next]_vars
-FairSpec == Spec /\ WF_vars(ActiveOff \/ EngineHalt \/ Change \/ HaltDone \/ Analyze \/ Activate \/ Spawn \/ WaitForwarders \/ CloseOut)
-                 /\ \A k \in K : WF_vars(IterFinish(k) \/ SeeCancel(k) \/ CancelDeliver(k) \/ SearchExit(k))
-                 /\ \A k \in K : WF_vars(FwdRecv(k) \/ FwdLine(k) \/ FwdCas(k) \/ FwdSend(k))
+Fairness == /\ WF_vars(ActiveOff \/ EngineHalt \/ Change \/ HaltDone \/ Analyze \/ Activate \/ Spawn \/ WaitForwarders \/ CloseOut)
+            /\ \A k \in K : WF_vars(IterFinish(k) \/ SeeCancel(k) \/ CancelDeliver(k) \/ SearchExit(k))
+            /\ \A k \in K : WF_vars(FwdRecv(k) \/ FwdLine(k) \/ FwdCas(k) \/ FwdSend(k))
+FairSpec == Spec /\ Fairness
 
 (* ------------------------------ properties ----------------------------- *)
 \* no forwarder ever sends on the closed output channel (a Go panic that kills the process)
